@@ -15,6 +15,7 @@ import (
 	"sort"
 	"strings"
 	"sync"
+	"sync/atomic"
 	"testing/synctest"
 	"time"
 
@@ -124,11 +125,63 @@ type base struct {
 	newState bool
 	entries  []*chain.Entry
 	img      *memory.Database
+	twin     *twinState
+}
+
+// twinState is an immutable image of the unpruned twin node. The twin is a real juno node that receives exactly the
+// same operations as the pruning node; because its state is a function of the operation sequence only (not of the
+// pruner configuration) the results are memoised by (image, operation) and shared by all replays.
+type twinState struct {
+	ns   bool
+	img  *memory.Database
+	hash string
+}
+
+var (
+	twinOps   sync.Map // ns|hash|op -> *twinState
+	twinOpsN  atomic.Int64
+	twinExecs atomic.Int64
+)
+
+func newTwinState(ns bool, img *memory.Database) *twinState {
+	h := faultdb.Hash(img)
+	return &twinState{ns, img, hex.EncodeToString(h[:16])}
+}
+
+func (t *twinState) node() *blockchain.Blockchain { return chain.NewNode(fastStore{t.img.Copy()}, t.ns) }
+
+// twinApply runs op on a real unpruned node opened on a copy of t (or returns the memoised result).
+func twinApply(t *twinState, op string, f func(bc *blockchain.Blockchain) error) *twinState {
+	k := fmt.Sprintf("%v|%s|%s", t.ns, t.hash, op)
+	if v, ok := twinOps.Load(k); ok {
+		return v.(*twinState)
+	}
+	d := t.img.Copy()
+	if err := f(chain.NewNode(fastStore{d}, t.ns)); err != nil {
+		panic(fmt.Sprintf("twin refuses %s: %v", op, err))
+	}
+	twinExecs.Add(1)
+	n := newTwinState(t.ns, d)
+	if twinOpsN.Add(1) > 30000 { // bound the memo (it is only a cache)
+		twinOps.Range(func(k, _ any) bool { twinOps.Delete(k); return true })
+		twinOpsN.Store(0)
+	}
+	twinOps.Store(k, n)
+	return n
+}
+
+func twinStore(t *twinState, e *chain.Entry) *twinState {
+	return twinApply(t, "store:"+e.Block.Hash.String(), func(bc *blockchain.Blockchain) error { return chain.StoreSync(bc, e) })
+}
+
+func twinRevert(t *twinState) *twinState {
+	return twinApply(t, "revert", func(bc *blockchain.Blockchain) error { return bc.RevertHead() })
 }
 
 // buildBase stores blocks 0..15 on a plain node; block i is 30 s + (15-i) min old at the bubble epoch.
 func buildBase(newState bool) (*base, error) {
 	b := &base{newState: newState, img: memory.New()}
+	defer func() { b.twin = newTwinState(newState, b.img.Copy()) }()
 	bc := chain.NewNode(b.img, newState)
 	var prev *chain.Entry
 	for i := uint64(0); i < baseLen; i++ {
@@ -157,8 +210,7 @@ type world struct {
 	cancel   context.CancelFunc
 	done     chan error
 
-	twinDB *memory.Database
-	twin   *blockchain.Blockchain
+	tw *twinState // the unpruned twin (memoised: see twinApply)
 
 	canon   []*chain.Entry // canonical chain by height
 	all     []*chain.Entry // every block ever stored (reverted ones too)
@@ -254,8 +306,7 @@ func newWorld(cfg config, b *base) *world {
 	ctx, cancel := context.WithCancel(context.Background())
 	w.cancel, w.done = cancel, make(chan error, 1)
 	go func() { w.done <- w.pr.Run(ctx) }()
-	w.twinDB = b.img.Copy()
-	w.twin = chain.NewNode(fastStore{w.twinDB}, cfg.NewState)
+	w.tw = b.twin
 	w.canon = append(w.canon, b.entries...)
 	w.all = append(w.all, b.entries...)
 	synctest.Wait()
@@ -337,19 +388,12 @@ func (w *world) stateKey() string {
 }
 
 func (w *world) storeBoth(e *chain.Entry) bool {
-	errT := chain.StoreSync(w.twin, e)
-	errP := chain.StoreSync(w.bc, e)
-	if errT != nil {
-		panic(fmt.Sprintf("twin refuses block %d: %v", e.Block.Number, errT))
-	}
-	if errP != nil {
+	tw := twinStore(w.tw, e)
+	if errP := chain.StoreSync(w.bc, e); errP != nil {
 		w.problem("store-next-fails"+backend(w.cfg.NewState), map[string]any{"block": e.Block.Number, "err": errP.Error()})
-		// keep the twin in step with the pruned node
-		if err := w.twin.RevertHead(); err != nil {
-			panic(err)
-		}
-		return false
+		return false // the twin stays in step with the pruning node
 	}
+	w.tw = tw
 	w.canon = append(w.canon, e)
 	w.all = append(w.all, e)
 	return true
@@ -404,9 +448,7 @@ func (w *world) apply(e evKind, onPrunerStart func(c0 int)) bool {
 		if err := core.WriteL1Head(w.fdb, h); err != nil {
 			panic(err)
 		}
-		if err := w.twin.SetL1Head(h); err != nil {
-			panic(err)
-		}
+		w.tw = twinApply(w.tw, fmt.Sprintf("l1:%d:%s", x, h.BlockHash), func(bc *blockchain.Blockchain) error { return bc.SetL1Head(h) })
 		w.l1 = int64(x)
 		trigger(func() { w.l1Feed.Send(h) })
 	case evTick:
@@ -424,17 +466,12 @@ func (w *world) apply(e evKind, onPrunerStart func(c0 int)) bool {
 			return false
 		}
 		for w.head() > tgt {
-			if err := w.twin.RevertHead(); err != nil {
-				panic(fmt.Sprintf("twin revert of %d: %v", w.head(), err))
-			}
+			tw := twinRevert(w.tw)
 			if err := w.bc.RevertHead(); err != nil {
 				w.problem("revert-above-floor-fails"+backend(w.cfg.NewState), map[string]any{"block": w.head(), "oldest_retained": oldestRetained(w.fdb), "err": err.Error()})
-				// realign the twin and stop
-				if err := chain.StoreSync(w.twin, w.canon[w.head()]); err != nil {
-					panic(err)
-				}
-				break
+				break // the twin stays in step with the pruning node
 			}
+			w.tw = tw
 			w.canon = w.canon[:w.head()]
 		}
 	}
@@ -536,16 +573,21 @@ func (p *probe) digest() uint64 {
 
 var twinObsCache sync.Map // image hash + probe digest -> *obs
 
-func twinObserve(bc *blockchain.Blockchain, d *memory.Database, ns bool, p *probe) *obs {
-	ih := faultdb.Hash(d)
-	k := fmt.Sprintf("%x|%x|%v", ih[:16], p.digest(), ns)
+func twinObserve(t *twinState, p *probe) *obs {
+	k := fmt.Sprintf("%s|%x|%v", t.hash, p.digest(), t.ns)
 	if o, ok := twinObsCache.Load(k); ok {
 		return o.(*obs)
 	}
-	o := observe(bc, p)
+	o := observe(t.node(), p)
+	if twinObsN.Add(1) > 30000 {
+		twinObsCache.Range(func(k, _ any) bool { twinObsCache.Delete(k); return true })
+		twinObsN.Store(0)
+	}
 	twinObsCache.Store(k, o)
 	return o
 }
+
+var twinObsN atomic.Int64
 
 // ---- the comparison rule ----------------------------------------------------------------------------------------
 
